@@ -177,7 +177,16 @@ def _roles(chk, j):
 
 
 def r4_constitution(chk, j):
+    from ..canon import Env, conjuncts, structured
+
+    j = structured(j)  # `if touches: continue` guard clauses read as nested ifs
     R, asg = _roles(chk, j)
+    env = Env(j.node)
+    roles = set(R.values())
+
+    def X(e, extra=()):
+        """the expression with naming locals / walrus targets dissolved (roles stay names)"""
+        return env.expand(e, keep=roles | set(extra))
     s1, s2, p1, p2, a1, a2, n1, n2, atoms, res, amap = (R[k] for k in ("s1", "s2", "p1", "p2", "a1", "a2", "n1", "n2", "atoms", "res", "map"))
     src = j.node
     facts = {a1: (f"{s1}.get_atom({p1})",), a2: (f"{s2}.get_atom({p2})",),
@@ -193,7 +202,7 @@ def r4_constitution(chk, j):
         g = al[0].generators[0]
         it = norm(g.iter)
         t = norm(g.target)
-        filt = [norm(x) for x in g.ifs]
+        filt = [norm(X(x, [t])) for x in g.ifs]
         ok = it in (f"chain({s1}.atoms, {s2}.atoms)", f"itertools.chain({s1}.atoms, {s2}.atoms)", f"{s1}.atoms + {s2}.atoms") and norm(al[0].elt) == t and filt in (
             [f"{t} not in {{{a1}, {a2}}}"], [f"{t} not in ({a1}, {a2})"], [f"{t} not in [{a1}, {a2}]"], [f"{t} is not {a1} and {t} is not {a2}"], [f"{t} not in {{{a2}, {a1}}}"])
         detail = f"[{norm(al[0].elt)} for {t} in {it} if {filt}]"
@@ -208,7 +217,9 @@ def r4_constitution(chk, j):
     okm = am in ([f"dict(zip({atoms}, {res}.atoms))"], [f"{{{atoms}[i]: {res}.atoms[i] for i in range({res}.n_atoms)}}"], [f"{{a: b for a, b in zip({atoms}, {res}.atoms)}}"])
     chk.decide(okm, "C12.R4", f"{j.key}:atom-map", j.where(), f"{amap} maps {atoms}[i] -> {res}.atoms[i]", f"{amap} is {am}: not the positional map from source atoms to the product's copies")
     apps = [c for c in walk_no_nested(src) if isinstance(c, ast.Call) and norm(c.func) == f"{res}.append_bond"]
-    ev = [c for c in apps if isinstance(c.args[0], ast.Call) and isinstance(c.args[0].func, ast.Attribute) and c.args[0].func.attr == "evolve"]
+    arg0 = {id(c): X(c.args[0]) for c in apps if c.args}
+    apps = [c for c in apps if c.args]
+    ev = [c for c in apps if isinstance(arg0[id(c)], ast.Call) and isinstance(arg0[id(c)].func, ast.Attribute) and arg0[id(c)].func.attr == "evolve"]
     fresh = [c for c in apps if c not in ev]
     ok = len(ev) == 1
     if ok:
@@ -217,8 +228,8 @@ def r4_constitution(chk, j):
         if ok:
             b = norm(loop[0].target.elts[-1]) if isinstance(loop[0].target, ast.Tuple) else norm(loop[0].target)
             guard = [g for g in walk_no_nested(loop[0]) if isinstance(g, ast.If) and any(x is ev[0] for x in ast.walk(g))]
-            ok = len(guard) == 1 and norm(guard[0].test) in (f"{a1} not in {b} and {a2} not in {b}", f"{a2} not in {b} and {a1} not in {b}", f"not ({a1} in {b} or {a2} in {b})")
-            e = ev[0].args[0]
+            ok = len(guard) == 1 and sorted(norm(c) for c in conjuncts(X(guard[0].test, [b]))) == sorted([f"{a1} not in {b}", f"{a2} not in {b}"])
+            e = env.expand(ev[0].args[0], keep=roles | {b})
             k1, k2 = kwarg(e, "a1"), kwarg(e, "a2")
             ok = ok and k1 is not None and k2 is not None and norm(k1) == f"{amap}[{b}.a1]" and norm(k2) == f"{amap}[{b}.a2]" and norm(e.func.value) == b
     chk.decide(ok, "C12.R4", f"{j.key}:bonds-transferred", j.where(ev[0] if ev else None),
@@ -226,9 +237,7 @@ def r4_constitution(chk, j):
                "the bond transfer loop no longer copies exactly the bonds that do not touch an attachment point, mapped through the atom map")
     ok = len(fresh) == 1
     if ok:
-        a0 = fresh[0].args[0]
-        if isinstance(a0, ast.NamedExpr):
-            a0 = a0.value
+        a0 = arg0[id(fresh[0])]
         ends = [norm(x) for x in a0.args[:2]] if isinstance(a0, ast.Call) else []
         ok = isinstance(a0, ast.Call) and call_name(a0) == "Bond" and ends in ([f"{res}.atoms[{atoms}.index({n1})]", f"{res}.atoms[{atoms}.index({n2})]"], [f"{amap}[{n1}]", f"{amap}[{n2}]"])
         kws = {k.arg: norm(k.value) for k in a0.keywords} if isinstance(a0, ast.Call) else {}
